@@ -200,3 +200,219 @@ def chi2_fcn_contract(signs_none):
     return Contract("chi2_fcn", {"x": T.arr(T.real), "likelihood": mk_lik, "eq_numpy": T.fn, "integrated": T.bool, "signs": mk_signs},
                     requires=requires, ensures=ensures, raises=raises, setup=setup,
                     loops={0: LoopSpec(inv, havoc_types=havoc_types)})
+
+
+# ------------------------------------------------------------------- optimise_fun: selection and back-transformation (C10)
+def region_optimise(fnode):
+    """from `chi2_min = np.inf` (the reset before the multi-start loop) to `chi2_i = chi2_min`, inside the try body"""
+    for n in ast.walk(fnode):
+        if isinstance(n, ast.Try):
+            body = n.body
+            start = end = None
+            for k, s_ in enumerate(body):
+                if isinstance(s_, ast.Assign) and isinstance(s_.targets[0], ast.Name) and s_.targets[0].id == "chi2_min" and start is None:
+                    start = k
+                if isinstance(s_, ast.Assign) and isinstance(s_.targets[0], ast.Name) and s_.targets[0].id == "chi2_i" and \
+                        isinstance(s_.value, ast.Name) and s_.value.id == "chi2_min":
+                    end = k
+            if start is not None and end is not None and end > start:
+                return body[start:end + 1]
+    return None
+
+
+def optimise_region_contract():
+    """Whatever the multi-start loop does, what it hands back is consistent: if a finite best value was found, the parameters
+    returned are exactly the point at which the optimiser evaluated the likelihood for the selected result -- x itself in linear
+    mode, (+/-)10**x with the signs of the branch that produced the selected result in log mode, zero padded -- so the
+    likelihood at the returned parameters is the returned value; the selected branch of each log-mode start is one with the
+    smallest value among the sign branches tried.  scipy's minimize is opaque: it returns (fun, x, success) with
+    fun = chi2_fcn(x, ..., signs) (its documented contract; chi2_fcn itself is verified separately)."""
+    from pyvc.engine import LoopSpec
+    from pyvc.values import VFloat, VRef, VNone, VStr, VTuple, VBool, HObj, HSeq, as_float, POW10, fle, flt, fsame
+    from pyvc import models as M
+    NLLv = z3.Function("NLLP.val", M.RealArr, z3.RealSort())
+    NLLi = z3.Function("NLLP.inf", M.RealArr, z3.BoolSort())
+    NP, MAXP = z3.Int("nparam"), z3.Int("max_param")
+    RES_T = T("obj", "OptimizeResult", (("fun", T.float), ("x", T.arr(T.real)), ("success", T.bool), ("lin", T.bool), ("sg0", T.int), ("sg1", T.int)))
+
+    def point(o):
+        """meta-level: the parameter vector at which the likelihood was evaluated for result object o"""
+        xg = o.fields["x"]
+        lin, s0, s1 = o.fields["lin"].t, o.fields["sg0"].t, o.fields["sg1"].t
+        return lambda eng, st: (lambda k: z3.If(lin, st.heap[xg.addr].get(k).val,
+                                                z3.ToReal(z3.If(k == 0, s0, z3.If(k == 1, s1, 1))) * POW10(st.heap[xg.addr].get(k).val)))
+
+    def res_ok(eng, st, o):
+        """the contract of minimize for result object o"""
+        k = z3.Int("k!pt")
+        f = point(o)(eng, st)
+        A = M.named_array(eng, z3.Lambda([k], f(k)), "PT")
+        fun = o.fields["fun"]
+        xs = st.heap[o.fields["x"].addr]
+        return z3.And(xs.len == NP, z3.Not(fun.nan), fun.inf == NLLi(A), z3.Implies(fun.inf, fun.pos), z3.Implies(z3.Not(fun.inf), fun.val == NLLv(A)),
+                      z3.Or(o.fields["sg0"].t == 1, o.fields["sg0"].t == -1), z3.Or(o.fields["sg1"].t == 1, o.fields["sg1"].t == -1)), A
+
+    def m_minimize(eng, st, args, kwargs, node):
+        a = kwargs.get("args")
+        if not (isinstance(a, VTuple) and len(a.items) == 4):
+            raise Unsupported("minimize(...) without the four extra arguments of chi2_fcn")
+        signs = a.items[3]
+        o = st.heap[eng.fresh(RES_T, "res", st).addr]
+        if isinstance(signs, VNone):
+            o.fields["lin"] = VBool(True)
+        else:
+            so = st.heap[signs.addr]
+            n_ = z3.simplify(so.len)
+            if not z3.is_int_value(n_) or n_.as_long() not in (1, 2):
+                raise Unsupported("sign list of unexpected length")
+            vals = []
+            for q in range(n_.as_long()):
+                e = so.get(z3.IntVal(q))
+                if not isinstance(e, VStr) or e.s not in "+-":
+                    raise Unsupported("unexpected sign marker")
+                vals.append(1 if e.s == "+" else -1)
+            o.fields["lin"] = VBool(False)
+            o.fields["sg0"] = VInt(vals[0])
+            o.fields["sg1"] = VInt(vals[1] if len(vals) > 1 else 1)
+            eng.oblige(st, "one sign per parameter in log mode", NP == n_.as_long(), "requires", node)
+        o.ftypes = RES_T.args[1]
+        ref = st.alloc(o)
+        ok, A = res_ok(eng, st, o)
+        st.assume(ok)
+        return ref
+
+    def m_uniform(eng, st, args, kwargs, node):
+        return VFloat(z3.Real(fresh_name("u")))
+
+    def m_argmin(eng, st, args, kwargs, node):
+        o = st.heap[args[0].addr]
+        n_ = z3.simplify(o.len)
+        if not z3.is_int_value(n_):
+            raise Unsupported("np.argmin of a list of symbolic length")
+        xs = [as_float(o.get(z3.IntVal(q))) for q in range(n_.as_long())]
+        idx, cur = z3.IntVal(0), xs[0]
+        for q in range(1, len(xs)):
+            take = z3.And(z3.Not(cur.nan), z3.Or(xs[q].nan, flt(xs[q], cur)))      # numpy: the first NaN wins, else the first minimum
+            idx = z3.If(take, q, idx)
+            from pyvc.values import ite
+            cur = ite(take, xs[q], cur)
+        return VInt(idx)
+
+    def arr(name, etype, n):
+        def mk(eng, st):
+            v = eng.fresh(T.arr(etype), name, st)
+            st.heap[v.addr].len = n
+            return v
+        return mk
+
+    params = {"nparam": lambda e, s: VInt(NP), "max_param": lambda e, s: VInt(MAXP), "Niter": T.int, "Nconv": T.int, "log_opt": T.bool,
+              "test_success": T.bool, "pmin": T.real, "pmax": T.real, "likelihood": T.fn, "eq_numpy": T.fn, "integrated": T.bool,
+              "flag_three": lambda e, s: VBool(False), "count_lowest": lambda e, s: VInt(0), "inf_count": lambda e, s: VInt(0),
+              "params": arr("params", T.real, MAXP), "mult_arr": arr("mult_arr", T.real, MAXP), "fcn_i": T.label}
+
+    def setup(eng, st, args):
+        eng.models["minimize"] = m_minimize
+        eng.models["np.random.uniform"] = m_uniform
+        eng.models["np.argmin"] = m_argmin
+
+    def requires(S, a):
+        k = z3.Int("k!rq")
+        return [("1 <= nparam <= max_param", z3.And(NP >= 1, MAXP >= NP)),
+                ("params starts as zeros and mult_arr as ones",
+                 z3.ForAll([k], z3.Implies(z3.And(0 <= k, k < MAXP), z3.And(S.get(a["params"], k).val == 0, S.get(a["mult_arr"], k).val == 1))))]
+
+    def linear_mode(S):
+        return z3.Or(NP > 2, z3.Not(S.b(S.eng.args0["log_opt"])))
+
+    def consistent(S, st):
+        """best / mult_arr_best / flag_three describe one evaluation point"""
+        o = st.heap[S.var("best").addr]
+        ok, A = res_ok(S.eng, st, o)
+        if "mult_arr_best" not in st.env:
+            raise Unsupported("mult_arr_best is no longer maintained next to best")
+        mb = S.seq(S.var("mult_arr_best"))
+        k = z3.Int("k!cs")
+        ft = S.b(S.var("flag_three"))
+        signs_ok = z3.And(mb.len == MAXP, z3.ForAll([k], z3.Implies(z3.And(0 <= k, k < MAXP), z3.And(
+            as_float(mb.get(k)).is_fin(),
+            as_float(mb.get(k)).val == z3.ToReal(z3.If(k == 0, o.fields["sg0"].t, z3.If(k == 1, o.fields["sg1"].t, 1)))))))
+        return z3.And(ok, o.fields["lin"].t == ft, ft == linear_mode(S), z3.Implies(z3.Not(ft), z3.And(signs_ok, NP <= 2)))
+
+    def inv(S, st):
+        cm = as_float(S.var("chi2_min"))
+        out = [("chi2_min is never NaN", z3.Not(cm.nan)),
+               ("flag_three is only ever set in linear mode, and is set from the start for more than two parameters",
+                z3.And(z3.Implies(S.b(S.var("flag_three")), linear_mode(S)), z3.Implies(NP > 2, S.b(S.var("flag_three")))))]
+        if "best" in st.env:
+            bound = z3.Not(st.unbound["best"]) if "best" in st.unbound else z3.BoolVal(True)
+            found = z3.Not(cm.is_pinf())
+            o = st.heap[S.var("best").addr]
+            out.append(("once a value below +inf was seen: best is bound, chi2_min is its value, and best / mult_arr_best / flag_three are consistent",
+                        z3.Implies(found, z3.And(bound, fsame(cm, o.fields["fun"]), consistent(S, st)))))
+        else:
+            out.append(("before the first improvement chi2_min is +inf", cm.is_pinf()))
+        return out
+
+    def ensures(S, a, res):
+        eng, st = S.eng, S.st
+        cm = as_float(S.var("chi2_min"))
+        ci = as_float(S.var("chi2_i"))
+        P = S.seq(S.var("params"))
+        k = z3.Int("k!en")
+        good = flt(cm, VFloat(z3.RealVal("1e100")))
+        out = [("the value handed back is chi2_min", fsame(ci, cm))]
+        if "best" not in st.env:
+            out.append(("no finite value without a best result", z3.Not(good)))
+            return out
+        o = st.heap[S.var("best").addr]
+        f = point(o)(eng, st)
+        PA = M.named_array(eng, z3.Lambda([k], z3.If(k < NP, as_float(P.get(k)).val, 0)), "PARAMS")
+        ok, A = res_ok(eng, st, o)
+        q = z3.Int(fresh_name("q!ext"))
+        eng.axioms.append(z3.Implies(z3.ForAll([q], z3.Implies(z3.And(0 <= q, q < NP), z3.Select(A, q) == z3.Select(PA, q))),
+                                     z3.And(NLLv(A) == NLLv(PA), NLLi(A) == NLLi(PA))))
+        out.append(("a finite best value: the returned parameters are the point the optimiser evaluated for the selected result (x, or +/-10**x with that branch's signs), zero padded",
+                    z3.Implies(good, z3.And(P.len == MAXP, z3.ForAll([k], z3.Implies(z3.And(0 <= k, k < MAXP), z3.And(
+                        as_float(P.get(k)).is_fin(), as_float(P.get(k)).val == z3.If(k < NP, f(k), 0))))))))
+        out.append(("a finite best value: the likelihood at the returned parameters is the returned value",
+                    z3.Implies(good, z3.And(z3.Not(NLLi(PA)), ci.val == NLLv(PA)))))
+        return out
+
+    def hook_res(S, st, node):
+        """`res = res_xx` in a log-mode start: the selected sign branch has the smallest value among the branches tried"""
+        v = getattr(node, "value", None)
+        if not (isinstance(node, ast.Assign) and isinstance(v, ast.Name)):
+            return
+        group = [g for g in (["res_pp", "res_mp", "res_pm", "res_mm"], ["res_p", "res_m"]) if v.id in g]
+        if not group or not all(n_ in st.env for n_ in group[0]):
+            return
+        sel = st.heap[S.var(v.id).addr].fields["fun"]
+        for other in group[0]:
+            of = st.heap[S.var(other).addr].fields["fun"]
+            S.eng.oblige(st, "the selected sign branch %s is not beaten by %s" % (v.id, other), z3.Or(of.nan, sel.nan, fle(sel, of)), "ensures", node,
+                         "log mode: the selected sign branch has the smallest value among the branches tried")
+
+    def hook_best(S, st, node):
+        st.ghost = dict(st.ghost)
+        st.ghost["old_min"] = as_float(S.var("chi2_min"))
+
+    def hook_min(S, st, node):
+        old = st.ghost.get("old_min")
+        if old is None or not isinstance(getattr(node, "value", None), ast.Subscript):
+            return
+        new = as_float(S.var("chi2_min"))
+        S.eng.oblige(st, "the running minimum only decreases", z3.Or(new.nan, old.nan, fle(new, old)), "ensures", node,
+                     "chi2_min is a running minimum: an update never increases it")
+
+    def loop_select(node):
+        if isinstance(node, ast.For) and isinstance(node.target, ast.Name) and node.target.id == "j" and "Niter" in ast.dump(node.iter):
+            ls = LoopSpec(inv, havoc_types={"best": RES_T, "res": RES_T, "mult_arr_best": T.arr(T.real), "mult_arr": T.arr(T.real),
+                                            "flag_three": T.bool, "choose": T.int, "inpt": T.arr(T.real)})
+            return ls
+        return None
+
+    c = Contract("optimise_fun", params, requires=requires, ensures=ensures, setup=setup, region=region_optimise,
+                 raises=lambda S, a, e: z3.BoolVal(False), hooks={"res": hook_res, "best": hook_best, "chi2_min": hook_min})
+    c.region_name = "multi-start loop, branch selection and back-transformation"
+    c.loop_select = loop_select
+    return c
